@@ -1,3 +1,164 @@
-import CylcModel.Sched3SetLemmas
+/-
+C26 on the `Sched3Set` model (check C26S) — task pool bookkeeping is internally consistent in runs with
+`cylc set` (outputs / prerequisites on pooled, inactive, future, finished and leaf instances), several flows, flow
+merges, flow wait and stop + restart.  Statements only; proofs by reference to `Sched3SetNoDup` / `Sched3SetNoDup2`
+(one lemma per primitive of the model, lifted over all op lists).
+-/
+import CylcModel.Sched3SetNoDup2
 namespace CylcModel.C26S
+open CylcModel.Sched3Set
+
+theorem pinv_true : PInv (fun _ _ => True) :=
+  ⟨fun _ _ _ _ _ _ _ => trivial, fun _ _ _ _ _ => trivial, fun _ _ => trivial, fun _ _ _ => trivial⟩
+
+/-- **No two proxies for one (cycle point, task name)** in every state of every run of the `Sched3Set` model — any
+instance graph, any list of main loops, submit results, job messages, hold / release / hold-point / stop / pause
+commands, `cylc set` commands (outputs or prerequisites, any --flow option, --wait, on pooled or inactive instances)
+and restarts. -/
+theorem pool_no_duplicates (g : Graph) (ops : List Op) :
+    ∀ s ∈ run g ops, ((s.pool.map fun x => (x.pt, x.name)).Nodup) := by
+  intro s hs
+  exact (inv_run pinv_true g ops s hs).1
+
+/-- the invariant is inductive: **every operation keeps it from any state that has it** (not only from reachable
+states) — in particular `cylc set` on an instance that is not in the pool, and a restart -/
+theorem step_keeps_no_duplicates (g : Graph) (s : State) (op : Op) (h : ND s) : ND (step g s op) :=
+  (inv_step pinv_true g s op ⟨h, fun _ _ => trivial⟩).1
+
+theorem set_keeps_no_duplicates (g : Graph) (s : State) (id : Int × String) (outs : List String) (pre : PreSpec)
+    (flow : FlowSpec) (wait : Bool) (h : ND s) : ND (setCmd g s id outs pre flow wait) :=
+  (inv_setCmd pinv_true g id outs pre flow wait ⟨h, fun _ _ => trivial⟩).1
+
+theorem merge_keeps_no_duplicates (g : Graph) (s : State) (x : Proxy) (f : Flows) (h : ND s) : ND (mergeFlows g s x f) :=
+  (inv_mergeFlows pinv_true g x f ⟨h, fun _ _ => trivial⟩).1
+
+theorem restart_keeps_no_duplicates (g : Graph) (s : State) (h : ND s) : ND (restart g s) :=
+  (inv_restart pinv_true g ⟨h, fun _ _ => trivial⟩).1
+
+/-- `add_to_pool` of an instance whose key is in the pool changes nothing (the second proxy object is dropped) -/
+theorem add_present_noop (s : State) (x : Proxy) (h : (s.get? x.pt x.name).isSome = true) : s.add x = s := by
+  unfold State.add
+  rw [h]; rfl
+
+/-- **every look-up finds the filed proxy itself**: with no duplicates, the proxy the pool returns for the key of a
+pooled proxy `x` (the model's `_get_task_by_id` / `get_task`) is `x` -/
+theorem lookup_returns_filed (s : State) (x : Proxy) (h : ND s) (hx : x ∈ s.pool) : s.get? x.pt x.name = some x := by
+  have key : ∀ (l : List Proxy), (l.map Proxy.key).Nodup → x ∈ l →
+      l.find? (fun y => y.pt == x.pt && y.name == x.name) = some x := by
+    intro l
+    induction l with
+    | nil => intro _ hx; cases hx
+    | cons y ys ih =>
+      intro hn hx
+      simp only [List.map_cons, List.nodup_cons] at hn
+      rcases List.mem_cons.mp hx with rfl | hx'
+      · simp [List.find?]
+      · have hne : (y.pt == x.pt && y.name == x.name) = false := by
+          cases hc : (y.pt == x.pt && y.name == x.name) with
+          | false => rfl
+          | true =>
+            simp only [Bool.and_eq_true, beq_iff_eq] at hc
+            exfalso
+            apply hn.1
+            have : y.key = x.key := by unfold Proxy.key; rw [hc.1, hc.2]
+            rw [this]
+            exact List.mem_map.mpr ⟨x, hx', rfl⟩
+        simp only [List.find?, hne]
+        exact ih hn.2 hx'
+  exact key s.pool h hx
+
+/-- in every state of every run each pooled proxy is what the pool returns for its key -/
+theorem lookup_consistent (g : Graph) (ops : List Op) :
+    ∀ s ∈ run g ops, ∀ x ∈ s.pool, s.get? x.pt x.name = some x := by
+  intro s hs x hx
+  exact lookup_returns_filed s x (inv_run pinv_true g ops s hs).1 hx
+
+/-- **The `task_pool` table is exactly the pool after a main-loop iteration** (unless that iteration shut the
+scheduler down): status, flows and held state included, since the rows *are* the proxies. -/
+theorem db_pool_exact (g : Graph) (s : State) (h : (mainLoop g s).stop = none) (h0 : s.stop = none) :
+    (mainLoop g s).db = some (mainLoop g s).pool := by
+  have hcs : ∀ t : State, t.db = some t.pool → (checkStalled g t).db = some (checkStalled g t).pool := by
+    intro t ht
+    unfold checkStalled
+    split
+    · exact ht
+    · split
+      · exact ht
+      · split
+        · exact ht
+        · exact ht
+  have hfin : ∀ t : State, (finishLoop g t).db = some (finishLoop g t).pool := by
+    intro t
+    unfold finishLoop
+    dsimp only
+    generalize (if t.pool.any (·.upd) = true then { t with restartWait := false } else t) = s1
+    generalize (if (t.schedUpd || t.pool.any (·.upd)) = true then
+        { putTaskPool s1 with stalled := false, schedUpd := false,
+                              pool := (putTaskPool s1).pool.map fun x => { x with upd := false } }
+      else s1) = s2
+    split
+    · apply hcs; rfl
+    · rfl
+  have hcan : ∀ t : State, canStop t = true → t.stopMode.isSome = true := by
+    intro t ht
+    unfold canStop at ht
+    split at ht
+    · cases ht
+    · rename_i heq; rw [heq]; rfl
+  unfold mainLoop at h ⊢
+  split at h
+  · rename_i hs; rw [h0] at hs; cases hs
+  · split
+    · rename_i hs; rw [h0] at hs; cases hs
+    · dsimp only at h ⊢
+      generalize (releaseRunahead g (computeRunahead g s)).1 = s1 at h ⊢
+      generalize (if s1.stopMode.isNone = true then
+          (if (stopTaskDone s1).2 = true then { (stopTaskDone s1).1 with stopMode := some "AUTOMATIC" }
+           else if (checkAutoShutdown g (stopTaskDone s1).1).2 = true then
+             { (checkAutoShutdown g (stopTaskDone s1).1).1 with stopMode := some "AUTOMATIC" }
+           else (checkAutoShutdown g (stopTaskDone s1).1).1)
+        else s1) = s2 at h ⊢
+      split at h
+      · rename_i hc
+        have := hcan s2 hc
+        simp only at h
+        rw [h] at this
+        cases this
+      · rename_i hc
+        simp only [hc]
+        exact hfin _
+
+/-! ### non-vacuity -/
+
+def stdOut : List OutDef :=
+  [⟨"submitted", "submitted"⟩, ⟨"started", "started"⟩, ⟨"succeeded", "succeeded"⟩, ⟨"failed", "failed"⟩]
+
+/-- `a => b` at cycle points 1..2, `b` a leaf -/
+def exG : Graph :=
+  { icp := 1, fcp := 2, start := 1, runahead := 1, seqs := [[1, 2]], stopPoint := some 2,
+    tasks := [
+      { name := "a",
+        insts := [(1, { pre := [], sui := [], children := [("succeeded", [⟨"b", 1, false⟩])], nextParentless := some 2 }),
+                  (2, { pre := [], sui := [], children := [("succeeded", [⟨"b", 2, false⟩])], nextParentless := none })],
+        firstParentless := some 1, completion := CE.var "succeeded", outputs := stdOut, required := ["succeeded"] },
+      { name := "b",
+        insts := [(1, { pre := [{ atoms := [(⟨1, "a", "succeeded"⟩, false)], expr := none }], sui := [], children := [],
+                        nextParentless := none, validPre := [⟨1, "a", "succeeded"⟩] }),
+                  (2, { pre := [{ atoms := [(⟨2, "a", "succeeded"⟩, false)], expr := none }], sui := [], children := [],
+                        nextParentless := none, validPre := [⟨2, "a", "succeeded"⟩] })],
+        firstParentless := none, completion := CE.var "succeeded", outputs := stdOut, required := ["succeeded"] }] }
+
+-- `cylc set --out=succeeded 2/b` (inactive leaf, nothing pooled at its point... 2/a is), then `--pre=all 2/b` twice in
+-- two flows (the second merges), then stop + restart: four distinct keys, the merged flows survive
+example : ((run exG [.set [(2, "b")] ["succeeded"] .none .default false,
+                     .set [(2, "b")] [] .all (.nums [2]) true,
+                     .set [(2, "b")] [] .all (.nums [3]) false,
+                     .stop "REQUEST(NOW-NOW)", .loop, .restart]).getLast?.map fun s =>
+    s.pool.map fun x => (x.pt, x.name, x.flows)) = some [(1, "a", [1]), (2, "a", [1]), (2, "b", [2, 3])] := by
+  decide
+
+example : (mainLoop exG (init exG)).stop = none ∧
+    ((mainLoop exG (init exG)).db.map fun l => l.map fun x => (x.pt, x.name, x.status)) =
+      some [(1, "a", Status.preparing), (2, "a", Status.preparing)] := by decide
+
 end CylcModel.C26S
